@@ -63,6 +63,30 @@ def stray(rng, pool, listable):
     return d + "/" + nm
 
 
+def chunking(rng, ln):
+    """chunking code k + 16*pat (harness blist): k evenly split data chunks (non-empty: k <= len),
+    e_j in 0..3 EMPTY chunks in front of data chunk j (j = k: behind the last).  Empty chunks at
+    every position: leading, between data, several in a row, trailing, all-empty contents."""
+    k = min(ln, rng.choice([1, 1, 2, 3, 7])) if ln else rng.choice([0, 1, 2])
+    r = rng.random()
+    e = [0] * (k + 1)
+    if r < 0.45: pass
+    elif r < 0.55: e[0] = rng.randint(1, 3)                                  # leading
+    elif r < 0.65: e[k] = rng.randint(1, 3)                                  # trailing
+    elif r < 0.85 and k >= 2: e[rng.randint(1, k - 1)] = rng.randint(1, 3)   # between data chunks (1..3 in a row)
+    else: e = [rng.choice([0, 0, 1, 2, 3]) for _ in range(k + 1)]            # anywhere
+    return k + 16 * sum(x * 4 ** j for j, x in enumerate(e))
+
+
+def chunk_class(code, ln):
+    k, pat = code % 16, code // 16
+    e = [(pat // 4 ** j) % 4 for j in range(k + 1)]
+    if not any(e): return "chunks_no_empty"
+    if ln == 0: return "chunks_all_empty"
+    if any(e[1:k]): return "chunks_empty_between_data"
+    return "chunks_empty_leading_or_trailing"
+
+
 def gen_case(rng, thorough, be=None, want_listable=False):
     if be is None:
         be = rng.choice([0, 0, 1, 2])
@@ -100,8 +124,7 @@ def gen_case(rng, thorough, be=None, want_listable=False):
                 if big_budget == 0: ln = rng.randint(0, 5000)
                 else: big_budget -= 1
             seed = 0 if rng.random() < 0.1 else rng.randint(1, 65535)
-            # never an empty chunk in front of data: OpenDALBackend::write_bytes then spins forever (known finding, probed separately)
-            nch = min(ln, rng.choice([1, 1, 2, 3, 7])) if ln else rng.choice([0, 1, 2])
+            nch = chunking(rng, ln)
             kind = "W"
             if be == 0:
                 q = rng.random()
@@ -232,6 +255,20 @@ def run(ctx):
                       {"case": pl, "impl": got, "expected": "ok | ok:1:1804:2898", "how_to_replay": "echo '<case>' | timeout 15 .cache/target*/debug/c20 -"},
                       signature="opendal-write-empty-leading-chunk-hangs")
     cov["known_finding_probe_hangs"] = len(probe_hang)
+    if probe_hang:
+        # the (fixed) hang is back: reported above; keep the main run finite by writing the
+        # object-store cases without empty chunks
+        def strip(line):
+            t = line.split()
+            if t[0] == "0": return line
+            i = 3 + 3 * int(t[2]); n = int(t[i]); i += 1
+            for _ in range(n):
+                w = {"L": 2, "S": 2, "R": 3, "D": 3, "P": 5, "W": 6, "H": 6, "C": 6}[t[i]]
+                if w == 6: t[i + 5] = str(max(1, min(int(t[i + 3]), int(t[i + 5]) % 16)) if int(t[i + 3]) else 1)
+                i += w
+            return " ".join(t)
+        cases = [(strip(c), parse_ops(strip(c)) | {"listable": inf["listable"]}) for c, inf in cases]
+        lines = [c for c, _ in cases]
     impl_out = run_lines(impl, lines, "impl")
     hist, samples = {}, []
     mism, viol = [], []
@@ -264,6 +301,7 @@ def run(ctx):
                     bump("partial_" + ("len0" if ln == 0 else "u32_overflow" if off + ln >= U32 else "ok" if a.startswith("ok") else "beyond_end_or_missing"))
                 if o[0] in "WHC":
                     ln = int(o[3])
+                    bump(chunk_class(int(o[5]), ln))
                     bump("write_size_" + ("0" if ln == 0 else "1-300" if ln <= 300 else "301-20000" if ln <= 20000 else "20001-700000" if ln <= 700000 else "1MiB+" if ln < 3000000 else "3MiB+"))
                 # ---- oracle: the map property evaluated on the implementation's answers
                 if info["listable"]:
@@ -289,7 +327,7 @@ def run(ctx):
             if len(samples) < 3 and len(info["ops"]) <= 12 and interesting:
                 samples.append({"case": case, "impl": io, "model ## spec": mo})
     cov.update({"evaluations": nops_total, "cases": len(cases), "distinct_nontrivial": len(nontriv),
-                "rule": "case = backend (LocalBackend on a temp dir, OpenDALBackend fs, OpenDALBackend memory) x optional create() x stray files (leftover temporaries, 63/65-digit names, non-hex characters, id-named directories, files outside the type directories) x 8-40 operations write/read_full/read_partial/list/list_with_size/remove over all five file types and a pool of ids sharing prefixes, contents 0..1 MiB (4 MiB in thorough) in 0-7 chunks, offsets/lengths at 0, inside, exactly at the end, one beyond, len=0 beyond the end, u32 overflow; on the local backend 25% of the writes list everything at the pre-publish hook, 10% crash there and re-open; every result is compared with the extracted model and with the extracted map specification; non-trivial = a read returned non-empty data; distinct by full case text",
+                "rule": "case = backend (LocalBackend on a temp dir, OpenDALBackend fs, OpenDALBackend memory) x optional create() x stray files (leftover temporaries, 63/65-digit names, non-hex characters, id-named directories, files outside the type directories) x 8-40 operations write/read_full/read_partial/list/list_with_size/remove over all five file types and a pool of ids sharing prefixes, contents 0..1 MiB (4 MiB in thorough) in 0-7 data chunks with EMPTY chunks inserted at every position (leading, between data chunks, several in a row, trailing, all-empty), offsets/lengths at 0, inside, exactly at the end, one beyond, len=0 beyond the end, u32 overflow; on the local backend 25% of the writes list everything at the pre-publish hook, 10% crash there and re-open; every result is compared with the extracted model and with the extracted map specification; non-trivial = a read returned non-empty data; distinct by full case text",
                 "samples": samples, "distribution": hist,
                 "hook_observations": hooks, "hook_observations_equal_old_state": hooks_old, "simulated_crashes": crashes,
                 "traces_validated_against_impl": len(cases), "disagreements_checked": len(mism) + len(viol),
